@@ -1,9 +1,10 @@
 SPECIFICATION Spec
 CONSTANTS
   Inputs = {1, 2}
-  Biases = {3}
-  Hidden = {6, 7}
-  OutSet = {4, 5}
+  Biases = {3, 4}
+  Hidden = {7, 8}
+  OutSet = {5, 6}
+  Shapes = {{1, 2, 3, 5, 6, 7, 8}, {1, 2, 5, 6, 7, 8}, {1, 2, 3, 4, 5, 6, 7, 8}, {1, 3, 4, 5, 7}, {1, 2, 3, 5, 7, 8}, {2, 4, 5, 6, 7}}
   Weights <- W3
   TdFlags = {FALSE, TRUE}
   InVals <- V3
